@@ -54,8 +54,14 @@ Definition u32_to_i32 (n : N) : Z :=
   if (z <? 2147483648)%Z then z else (z - 4294967296)%Z.
 Definition i32_to_u32 (z : Z) : N := Z.to_N (z mod 4294967296)%Z.
 
-(* Handle::from_bytes / FromStr for Handle: FNV-1a-32 over the bytes (no 0 remap; debug_assert only) *)
-Definition handle_of_bytes (bs : list N) : N := fnv_bytes fnv_offset bs.
+(* handle_table.rs non_zero (3f22e7c "handles are never 0"): 0 marks an empty slot of a HandleTable, a hash
+   of 0 becomes 1.  Applied by Handle::from_bytes / from_slice / from_bytes_iter, hash_u64 and Handle + Handle.
+   (Before: no remap, a debug_assert in from_bytes; findings N-C04-1..3.) *)
+Definition non_zero : N -> N := nonzero_hash.   (* same remap as CaoHasher's, above *)
+(* Handle::from_bytes / FromStr for Handle: FNV-1a-32 over the bytes *)
+Definition handle_of_bytes (bs : list N) : N := non_zero (fnv_bytes fnv_offset bs).
+(* impl Add for Handle: xor *)
+Definition handle_add (a b : N) : N := non_zero (N.lxor a b).
 
 (* hash_u64(key, mask) of handle_table.rs, with Wrapping<u64> arithmetic *)
 Definition hash_u64 (key mask : N) : N :=
@@ -64,6 +70,6 @@ Definition hash_u64 (key mask : N) : N :=
   let k1 := step key in
   let k2 := step k1 in
   let k3 := N.land (N.lxor (N.shiftr k2 16) k2) mask in
-  (N.lxor (N.shiftr k3 32) k3) mod two32.
+  non_zero ((N.lxor (N.shiftr k3 32) k3) mod two32).
 Definition handle_from_u32 (k : N) : N := hash_u64 k mask32.
 Definition handle_from_u64 (k : N) : N := hash_u64 k (two64 - 1).
